@@ -11,7 +11,8 @@ theorem (an undischarged obligation: the check then searches the correspondence 
 Supported Python: names / attributes / subscripts / `len(self)` bound to Lean variables through `env`; local
 names defined by a single assignment in the same function (inlined); + - * / unary minus; `**` with a natural
 number exponent variable; int / float literals that are exact in binary (1.0, 0.0, 2 ...); the identity wrappers
-`np_scalar(x, dtype=...)`, `np.asarray(x, ...)`, `float(x)`; a one-element list / `np.array([x])` around the value.
+`np_scalar(x, dtype=...)`, `np.asarray(x, ...)`, `float(x)`; a one-element list / `np.array([x])` around the value;
+a broadcasting subscript `x[:, None]`.
 A second kind of specification (`kind="straightline"`) executes a whole function body symbolically, statement by
 statement (assignments and augmented assignments to names and `self` attributes, typed `Nat` / `Rat`, `np.sqrt`
 as an uninterpreted function `sq`), and emits the final value of the listed outputs -- used for the update rules
@@ -64,6 +65,12 @@ SPECS = [
     dict(name="objMean", file="ribs/archives/_archive_base.py", func="ArchiveBase._stats_update",
          call="ArchiveStats", kw="obj_mean",
          env={"self._objective_sum": "s", "len(self)": "n"}, vars=["s", "n"], nat=[]),
+    # the value maximised over the elites in cqd_score: normalised objective minus penalty times normalised distance
+    dict(name="cqdValue", file="ribs/archives/_archive_base.py", func="ArchiveBase.cqd_score",
+         assign="values", nth=0,
+         env={"objective_batch": "f", "obj_max": "omax", "obj_min": "omin", "penalty": "pen", "distances": "d",
+              "dist_max": "dmax"},
+         vars=["f", "omax", "omin", "pen", "d", "dmax"], nat=[]),
 ]
 
 TYPED_SPECS = [
@@ -79,6 +86,101 @@ TYPED_SPECS = [
          inputs={"mueff": ("mueff", "Rat"), "self.solution_dim": ("n", "Rat")},
          vars=[("mueff", "Rat"), ("n", "Rat")], result="Rat")
     for nm in ("cc", "cs", "c1", "cmu")
+] + [
+    # the scalar steps of CMAEvolutionStrategy.tell (arrays are read coordinate-wise; sums of squares, the exponent
+    # 2*current_eval/batch_size and hsig are inputs; sqrt / exp are uninterpreted)
+    dict(name=pre + nm, file=f, func=fn, nth=0,
+         inputs={"mueff": ("mueff", "Rat"), "self.solution_dim": ("n", "Rat"), "cs": ("cs", "Rat"), "cc": ("cc", "Rat"),
+                 "c1": ("c1", "Rat"), "self.ps": ("ps", "Rat"), "self.pc": ("pc", "Rat"), "z": ("z", "Rat"),
+                 "y": ("y", "Rat"), "self.sigma": ("sigma", "Rat"), "hsig": ("hsig", "Rat"),
+                 "np.sum(np.square(self.ps))": ("ssp", "Rat"), "sum_square_ps": ("ssp", "Rat"),
+                 "2 * self.current_eval / self.batch_size": ("k", "Nat"), "cn": ("cn", "Rat")},
+         vars=vs, result="Rat", **loc)
+    for pre, f, fn in (("cma", "ribs/emitters/opt/_cma_es.py", "CMAEvolutionStrategy.tell"),
+                       ("sep", "ribs/emitters/opt/_sep_cma_es.py", "SeparableCMAEvolutionStrategy.tell"))
+    for nm, loc, vs in (
+        ("Damps", dict(assign="damps"), [("sq", "Rat → Rat"), ("mueff", "Rat"), ("n", "Rat"), ("cs", "Rat")]),
+        ("Ps", dict(assign="self.ps"), [("sq", "Rat → Rat"), ("mueff", "Rat"), ("cs", "Rat"), ("sigma", "Rat"),
+                                           ("ps", "Rat"), ("z", "Rat")]),
+        ("Left", dict(assign="left"), [("cs", "Rat"), ("n", "Rat"), ("ssp", "Rat"), ("k", "Nat")]),
+        ("Right", dict(assign="right"), [("n", "Rat")]),
+        ("Pc", dict(assign="self.pc"), [("sq", "Rat → Rat"), ("mueff", "Rat"), ("cc", "Rat"), ("hsig", "Rat"),
+                                           ("pc", "Rat"), ("y", "Rat")]),
+        ("C1a", dict(assign="c1a"), [("c1", "Rat"), ("cc", "Rat"), ("hsig", "Rat")]),
+        ("Sigma", dict(aug="self.sigma"), [("ex", "Rat → Rat"), ("cn", "Rat"), ("n", "Rat"), ("ssp", "Rat"),
+                                              ("sigma", "Rat")]),
+    )
+] + [
+    # `_calc_cov_update` of CMA-ES (entry i, j; `np.outer(pc, pc)` read as the entry pc_i * pc_j) and of sep-CMA-ES
+    # (coordinate j)
+    dict(name="cmaCov", file="ribs/emitters/opt/_cma_es.py", func="CMAEvolutionStrategy._calc_cov_update", ret=0, nth=0,
+         inputs={"cov": ("C", "Rat"), "c1a": ("c1a", "Rat"), "cmu": ("cmu", "Rat"), "c1": ("c1", "Rat"),
+                 "np.outer(pc, pc)": ("pp", "Rat"), "sigma": ("sigma", "Rat"), "rank_mu_update": ("rm", "Rat"),
+                 "np.sum(weights)": ("ws", "Rat")},
+         vars=[("C", "Rat"), ("c1a", "Rat"), ("cmu", "Rat"), ("c1", "Rat"), ("pp", "Rat"), ("sigma", "Rat"),
+               ("rm", "Rat"), ("ws", "Rat")], result="Rat"),
+    dict(name="sepCov", file="ribs/emitters/opt/_sep_cma_es.py",
+         func="SeparableCMAEvolutionStrategy._calc_cov_update", ret=0, nth=0,
+         inputs={"cov": ("C", "Rat"), "c1a": ("c1a", "Rat"), "cmu": ("cmu", "Rat"), "c1": ("c1", "Rat"),
+                 "pc": ("pc", "Rat"), "sigma": ("sigma", "Rat"), "rank_mu_update": ("rm", "Rat"),
+                 "np.sum(weights)": ("ws", "Rat")},
+         vars=[("C", "Rat"), ("c1a", "Rat"), ("cmu", "Rat"), ("c1", "Rat"), ("pc", "Rat"), ("sigma", "Rat"),
+               ("rm", "Rat"), ("ws", "Rat")], result="Rat"),
+] + [
+    # learning rates of sep-CMA-ES (`_calc_strat_params`, `_conedf`, `_cmudf`)
+    dict(name=nm, file="ribs/emitters/opt/_sep_cma_es.py", func="SeparableCMAEvolutionStrategy." + fn, nth=0,
+         inputs=ins, vars=vs, result="Rat", **loc)
+    for nm, fn, loc, ins, vs in (
+        ("sepCcSep", "_calc_strat_params", dict(assign="cc_sep"),
+         {"mueff": ("mueff", "Rat"), "solution_dim": ("n", "Rat")},
+         [("sq", "Rat → Rat"), ("mueff", "Rat"), ("n", "Rat")]),
+        ("sepCs", "_calc_strat_params", dict(assign="cs"),
+         {"mueff": ("mueff", "Rat"), "solution_dim": ("n", "Rat")}, [("mueff", "Rat"), ("n", "Rat")]),
+        ("sepC1", "_calc_strat_params", dict(assign="c1"),
+         {"mueff": ("mueff", "Rat"), "solution_dim": ("n", "Rat")}, [("mueff", "Rat"), ("n", "Rat")]),
+        ("sepC1Sep", "_calc_strat_params", dict(assign="c1_sep"),
+         {"c1": ("c1", "Rat"), "self._conedf(solution_dim, mueff, solution_dim)": ("conedf", "Rat")},
+         [("c1", "Rat"), ("conedf", "Rat")]),
+        ("sepCmuSep", "_calc_strat_params", dict(assign="cmu_sep"),
+         {"c1_sep": ("c1sep", "Rat"), "self._cmudf(solution_dim, mueff, 0)": ("cmudf", "Rat")},
+         [("c1sep", "Rat"), ("cmudf", "Rat")]),
+        ("sepConedf", "_conedf", dict(ret=0),
+         {"df": ("df", "Rat"), "mu": ("mu", "Rat"), "solution_dim": ("n", "Rat")},
+         [("sq", "Rat → Rat"), ("df", "Rat"), ("mu", "Rat"), ("n", "Rat")]),
+        ("sepCmudf", "_cmudf", dict(ret=0),
+         {"df": ("df", "Rat"), "mu": ("mu", "Rat"), "alphamu": ("alphamu", "Rat")},
+         [("sq", "Rat → Rat"), ("df", "Rat"), ("mu", "Rat"), ("alphamu", "Rat")]),
+    )
+] + [
+    # LM-MA-ES: the constants of __init__ (entry i of `cd` / `cc`: `np.arange(n_vectors)` read as the index i) and the
+    # path / matrix / step-size updates of tell (row i, coordinate j)
+    dict(name=nm, file="ribs/emitters/opt/_lm_ma_es.py", func="LMMAEvolutionStrategy." + fn, nth=0,
+         inputs=ins, vars=vs, result="Rat", **loc)
+    for nm, fn, loc, ins, vs in (
+        ("lmCsigma", "__init__", dict(assign="self.csigma"),
+         {"self.batch_size": ("b", "Nat"), "self.solution_dim": ("n", "Nat")}, [("b", "Nat"), ("n", "Nat")]),
+        ("lmCd", "__init__", dict(assign="self.cd"),
+         {"np.arange(self.n_vectors)": ("i", "Nat"), "self.solution_dim": ("n", "Nat")}, [("i", "Nat"), ("n", "Nat")]),
+        ("lmCc", "__init__", dict(assign="self.cc"),
+         {"np.arange(self.n_vectors)": ("i", "Nat"), "self.solution_dim": ("n", "Nat"), "self.batch_size": ("b", "Nat")},
+         [("i", "Nat"), ("n", "Nat"), ("b", "Nat")]),
+        ("lmPs", "tell", dict(assign="self.ps"),
+         {"self.csigma": ("cs", "Rat"), "self.ps": ("ps", "Rat"), "mueff": ("mueff", "Rat"), "z_mean": ("zm", "Rat")},
+         [("sq", "Rat → Rat"), ("cs", "Rat"), ("mueff", "Rat"), ("ps", "Rat"), ("zm", "Rat")]),
+        ("lmM", "tell", dict(assign="self.m"),
+         {"self.cc[:, None]": ("cci", "Rat"), "self.m": ("m", "Rat"), "mueff": ("mueff", "Rat"),
+          "z_mean[None]": ("zm", "Rat")},
+         [("sq", "Rat → Rat"), ("cci", "Rat"), ("mueff", "Rat"), ("m", "Rat"), ("zm", "Rat")]),
+        ("lmSigma", "tell", dict(aug="self.sigma"),
+         {"self.csigma": ("cs", "Rat"), "np.sum(self.ps ** 2)": ("ssp", "Rat"), "self.solution_dim": ("n", "Rat"),
+          "self.sigma": ("sigma", "Rat")},
+         [("ex", "Rat → Rat"), ("cs", "Rat"), ("n", "Rat"), ("ssp", "Rat"), ("sigma", "Rat")]),
+    )
+] + [
+    # rank normalisation of OpenAI-ES: `ranks / (batch_size - 1) - 0.5`
+    dict(name="openaiNormRank", file="ribs/emitters/opt/_openai_es.py", func="OpenAIEvolutionStrategy.tell",
+         assign="ranks", nth=1, inputs={"ranks": ("r", "Nat"), "self.batch_size": ("b", "Nat")},
+         vars=[("r", "Nat"), ("b", "Nat")], result="Rat"),
 ] + [
     # number of parents handed to the optimizer (C10 / C19): `new_sols if rule == "filter" else batch_size // 2`
     dict(name=nm, file=f, func=fn, assign="num_parents", nth=0,
@@ -209,6 +311,10 @@ def to_lean(node, spec, assigns, depth=0):
         raise Untranslatable(f"call {fn}(...)")
     if isinstance(node, ast.List) and len(node.elts) == 1:
         return to_lean(node.elts[0], spec, assigns, depth + 1)
+    if isinstance(node, ast.Subscript) and isinstance(node.slice, ast.Tuple) and all(
+            (isinstance(e, ast.Slice) and e.lower is None and e.upper is None and e.step is None)
+            or (isinstance(e, ast.Constant) and e.value is None) for e in node.slice.elts):
+        return to_lean(node.value, spec, assigns, depth + 1)        # `x[:, None]`: broadcasting, same elements
     if isinstance(node, ast.Name):
         if node.id in spec.get("locals_opaque", []):
             raise Untranslatable(f"{node.id} not bound")
@@ -272,6 +378,10 @@ def sl_expr(node, sym, assigns=None, depth=0):
         e, t = sl_expr(node.operand, sym, assigns, depth + 1)
         return f"(-{rat(e, t)})", "Rat"
     if isinstance(node, ast.BinOp):
+        if isinstance(node.op, ast.Pow) and isinstance(node.right, ast.Constant) and node.right.value == 0.5 \
+                and isinstance(node.right.value, float):
+            b, bt = sl_expr(node.left, sym, assigns, depth + 1)
+            return f"(sq {rat(b, bt)})", "Rat"                     # `x ** 0.5` is the square root
         if isinstance(node.op, ast.Pow):
             b, bt = sl_expr(node.left, sym, assigns, depth + 1)
             e, et = sl_expr(node.right, sym, assigns, depth + 1)
@@ -316,9 +426,9 @@ def sl_expr(node, sym, assigns=None, depth=0):
             a, at = sl_expr(node.args[0], sym, assigns, depth + 1)
             b, bt = sl_expr(node.args[1], sym, assigns, depth + 1)
             return f"(if {rat(a, at)} ≤ {rat(b, bt)} then {rat(b, bt)} else {rat(a, at)})", "Rat"
-        if fn in ("np.sqrt", "np.log") and len(node.args) == 1 and not node.keywords:
+        if fn in ("np.sqrt", "np.log", "np.exp") and len(node.args) == 1 and not node.keywords:
             e, t = sl_expr(node.args[0], sym, assigns, depth + 1)
-            return f"({'sq' if fn == 'np.sqrt' else 'ln'} {rat(e, t)})", "Rat"
+            return f"({ {'np.sqrt': 'sq', 'np.log': 'ln', 'np.exp': 'ex'}[fn]} {rat(e, t)})", "Rat"
         raise Untranslatable(f"call {fn}(...)")
     if isinstance(node, ast.IfExp):
         ttext = ast.unparse(node.test)
@@ -430,10 +540,23 @@ def translate(repo, out_path):
         try:
             tree = ast.parse(open(os.path.join(repo, spec["file"])).read())
             func = find_function(tree, spec["func"])
-            vals = assignments(func).get(spec["assign"], [])
-            if len(vals) <= spec["nth"]:
-                raise Untranslatable(f"no assignment to {spec['assign']}")
-            node = vals[spec["nth"]]
+            if "ret" in spec:
+                rets = sorted((n.lineno, n) for n in ast.walk(func) if isinstance(n, ast.Return) and n.value is not None)
+                if len(rets) <= spec["ret"]:
+                    raise Untranslatable("no return statement")
+                node = rets[spec["ret"]][1].value
+            elif "aug" in spec:
+                augs = sorted((n.lineno, n) for n in ast.walk(func)
+                              if isinstance(n, ast.AugAssign) and ast.unparse(n.target) == spec["aug"])
+                if len(augs) <= spec["nth"]:
+                    raise Untranslatable(f"no augmented assignment to {spec['aug']}")
+                a_ = augs[spec["nth"]][1]
+                node = ast.copy_location(ast.BinOp(left=a_.target, op=a_.op, right=a_.value), a_)
+            else:
+                vals = assignments(func).get(spec["assign"], [])
+                if len(vals) <= spec["nth"]:
+                    raise Untranslatable(f"no assignment to {spec['assign']}")
+                node = vals[spec["nth"]]
             e, t = sl_expr(node, dict(spec["inputs"]), assignments(func))
             if (t == "Nat") != (spec["result"] == "Nat"):
                 raise Untranslatable(f"result type {t}, expected {spec['result']}")
